@@ -157,7 +157,7 @@ def ops_menu(st, depth):
     if n:
         ops += [("mask", tuple(i % 2 == 0 for i in range(n))), ("mask", tuple(i < (n + 1) // 2 for i in range(n))),
                 ("take", tuple(range(n - 1, -1, -1))), ("take", (0, 0, n - 1))]
-    ops += [("copy",), ("pickle",)]
+    ops += [("copy",), ("pickle",), ("used_pickle",), ("used_deepcopy",)]
     if st.cont == "array":
         ops += [("to_series",)]
     if st.cont == "series":
@@ -167,7 +167,7 @@ def ops_menu(st, depth):
 
 def apply_model(rows, op):
     t = op[0]
-    if t in ("sindex", "copy", "pickle", "to_series", "to_frame"):
+    if t in ("sindex", "copy", "pickle", "used_pickle", "used_deepcopy", "to_series", "to_frame"):
         return list(rows)
     if t == "iloc":
         return rows[slice(op[1], op[2], op[3])]
@@ -200,6 +200,13 @@ def apply_real(st, op):
         return obj.copy(), cont
     if t == "pickle":
         return pickle.loads(pickle.dumps(obj)), cont
+    if t in ("used_pickle", "used_deepcopy"):
+        # the object has answered a query (whatever index it carries was used, lazily completed state exists) before it is copied
+        obj.cx[-1000.0:1000.0, -1000.0:1000.0]
+        if t == "used_pickle":
+            return pickle.loads(pickle.dumps(obj)), cont
+        import copy
+        return copy.deepcopy(obj), cont
     if t == "to_series":
         labels = [r[1] for r in st.rows]
         return GeoSeries(obj, index=pd.Index(labels, dtype=object), name="geom"), "series"
